@@ -65,13 +65,21 @@ def metaOk (o : Obs) (src : Addr) (usn : Option Bytes) : Bool :=
   && o.lookupCI kRemote == some (some (.addr src))
   && o.lookupCI kUdn == some ((usn.bind fun u => if u.isEmpty then .none else udnFromUsn u).map Val.str)
 
-/-- the value sent under `location` may come back adjusted for a scoped IPv6 source, in which case
-    the sent text is kept under `_location_original` -/
+/-- the value sent under a name comes back as sent.  `location` with text comes back as
+    `get_adjusted_url(sent, source)` — the sent URL itself unless the source is a scoped IPv6 address
+    and the URL's host a link-local address (`adjust_identity`); outside the modelled URL grammar
+    any text is accepted — and the sent text is kept under `_location_original`. -/
 def valueOk (o : Obs) (src : Addr) (k v : Bytes) : Bool :=
   if lower k == kLocation then
-    o.lookupCI k == some (some (.str v))
-    || (src.v6 && src.scope != 0 && o.lookupCI kLocOrig == some (some (.str v))
-        && (match o.lookupCI k with | some (some (.str _)) => true | _ => false))
+    if allPyWs v then o.lookupCI k == some (some (.str v))
+    else
+      o.lookupCI kLocOrig == some (some (.str v))
+      && (match adjustUrl v src with
+          | some u => o.lookupCI k == some (some (.str u))
+          | .none => (match o.lookupCI k with
+                      | some (some (.str _)) => true
+                      | some (some .unk) => true
+                      | _ => false))
   else o.lookupCI k == some (some (.str v))
 
 def roundTripOk (metaKeys : List Bytes) (sl : Bytes) (hs : List (Bytes × Bytes)) (src : Addr)
